@@ -325,8 +325,8 @@ def spec_check(c, steps):
                 klass = F3
             elif (not extra and missing and version == "delta" and view in ("i1", "i2", "i12") and c["suite"] == "ter"):
                 rest = [t for t in missing if not refl_not_inserted(t)]
-                raw1 = {(t[0], t[1]) for t in ins_round}
-                raw2 = {(t[0], t[2]) for t in ins_round}
+                raw1 = {(t[0], t[1]) for t in new_round}      # (key, column-1 value) pairs that entered `new` this round
+                raw2 = {(t[0], t[2]) for t in new_round}
 
                 def unreachable(t):
                     a = (t[0], t[1]) not in raw1
